@@ -13,7 +13,8 @@ RULE = ("1-3 local TagLibrary objects and the module-level API; 5-40 ops from ad
         "itemize / len; names from identifiers, duplicates of accepted names, 'NONE', the library's own attribute and "
         "method names, dunders, (global library) module globals, arbitrary strings; ids from -2 to len+2 and far beyond; "
         "non-trivial = >=3 accepted tags, >=1 rejected add between two accepted ones and >=1 hostile name; distinct = "
-        "sequence of (library, op, name class, outcome)")
+        "sequence of (library, op, name class, outcome)"
+        "; also: builtin names, module-type attributes (__annotations__ ...), many more dunders, private attribute names looked up on the global library")
 COMPONENTS = {"real": ["ECAgent.Tags.TagLibrary (add_tag, get_tag_name, itemize, __len__, attribute lookup)",
                        "module-level add_tag / get_tag_name / itemize / __getattr__ and the global library"],
               "stub": ["none"]}
